@@ -33,6 +33,8 @@ func round6(c *Ctx) {
 			r8ObjectsOfNumbers(c)
 			r8NullEntriesAcrossCarriers(c)
 			r8ObjectsKeyedByAny(c)
+			r9ListsOfBytesAndTaggedFields(c)
+			r9EmptyObjectsAcrossCarriers(c)
 		}
 	case "C05":
 		r6NumbersKeptAsText(c)
@@ -40,6 +42,9 @@ func round6(c *Ctx) {
 		r8SmallFloats(c)
 	case "C04":
 		r8ObjectsOfNumbers(c)
+		r9ListsOfBytesAndTaggedFields(c)
+	case "C01":
+		r9KeysThatAreNumerals(c)
 	case "C18":
 		r8NeedlesEndingInAQuote(c)
 	case "C17":
@@ -468,7 +473,7 @@ func r8RunsOfFilters(c *Ctx) {
 	}
 	for _, d := range docs {
 		for _, tail := range []string{".First()", ".Any()", ".Last()", ".Count()", "", ".First().n", ".n.Sum()"} {
-			for _, body := range []string{"$.rows[@.ok][@.n.Greater(5)]", "$.rows[AND,@.ok,@.n.Greater(5)]", "$.rows[@.n.Greater(5)][@.ok]", "$.rows[@.ok][@.n.Greater(5)][@.n.Less(9)]", "$.rows[@.ok][@.ok][@.n.Greater(5)]"} {
+			for _, body := range []string{"$.rows[OR,@.ok,@.n.Less(2)][OR,@.n.Greater(5),@.n.Equal(2)]", "$.rows[OR,@.ok][OR,@.n.Greater(5)]", "$.rows[AND,@.ok][OR,@.n.Greater(8),@.n.Less(2)]", "$.rows[@.ok][@.n.Greater(5)]", "$.rows[AND,@.ok,@.n.Greater(5)]", "$.rows[@.n.Greater(5)][@.ok]", "$.rows[@.ok][@.n.Greater(5)][@.n.Less(9)]", "$.rows[@.ok][@.ok][@.n.Greater(5)]"} {
 				c.Do(Case{Q: body + tail, D: d, Cls: "round8/runs-of-filters", InDomain: true})
 			}
 		}
@@ -576,5 +581,72 @@ func r8FreshParsesOfEscapedBackslashes(c *Ctx) {
 				break
 			}
 		}
+	}
+}
+
+// ---------- round 9 ----------
+
+// keys made of digits applied to lists: a key is a key (no element has it), not a position
+func r9KeysThatAreNumerals(c *Ctx) {
+	d := tvMap("str", [][2]any{kv("list", tvSlice(1, tvMap("str", [][2]any{kv("a", tvStr("p"))}), tvMap("str", [][2]any{kv("a", tvStr("q"))}))), kv("tags", tvSlice(1, tvStr("x"), tvStr("y"))),
+		kv("typed", tvSlice(0, tvStr("x"), tvStr("y"))), kv("arr", tvArray(1, tvStr("x"))), kv("with", tvSlice(1, tvMap("str", [][2]any{kv("0", tvStr("zero"))}), tvMap("str", [][2]any{kv("a", tvStr("q"))}))),
+		kv("o", tvMap("str", [][2]any{kv("1", tvStr("one")), kv("01", tvStr("zero-one"))}))})
+	for _, q := range []string{"$.list.1", "$.list.0", "$.list.1.a", "$.tags.0", "$.tags.1", "$.typed.0", "$.arr.0", "$.list.2", "$.list.-1", "$.with.0", "$.with.1", "$.o.1", "$.o.01", "$.list.a.0", "$.0", "$.list.00"} {
+		c.Do(Case{Q: q, D: d, Cls: "round9/keys-that-are-numerals", InDomain: true})
+	}
+}
+
+// lists of small whole numbers carried by []uint8 (which is []byte), and struct fields that carry json tags made of options only:
+// operands like any others
+func r9ListsOfBytesAndTaggedFields(c *Ctx) {
+	u8 := func(vs ...int) []*TV {
+		var out []*TV
+		for _, v := range vs {
+			out = append(out, tvInt("uint8", fmt.Sprint(v)))
+		}
+		return out
+	}
+	anyl := func(vs ...int) []*TV {
+		var out []*TV
+		for _, v := range vs {
+			out = append(out, tvF64(float64(v)))
+		}
+		return out
+	}
+	for _, vs := range [][]int{{3, 200, 50, 49}, {49, 50}, {0}, {7, 7}} {
+		docs := []*TV{
+			tvMap("str", [][2]any{kv("levels", tvSlice(1, anyl(vs...)...)), kv("scale", tvF64(0.1))}),
+			tvMap("str", [][2]any{kv("levels", tvSlice(0, u8(vs...)...)), kv("scale", tvF64(0.1))}),
+			tvStruct([][3]any{{"Levels", 1, tvSlice(0, u8(vs...)...)}, {"Scale", 1, tvF64(0.1)}}),
+			tvMap("str", [][2]any{kv("levels", tvPtr(tvSlice(0, u8(vs...)...))), kv("scale", tvF64(0.1))}),
+			tvMap("str", [][2]any{kv("levels", tvArray(0, u8(vs...)...)), kv("scale", tvF64(0.1))}),
+		}
+		for _, q := range []string{"$.levels.Sum()", "$.levels.Maximum()", "$.levels.Minimum()", "$.levels.Average()", "$.levels.Sum(1)", "$.scale.Sum($.levels)", "$.scale.Add($.levels.Sum())", "$.levels.Count()", "$.levels.First()",
+			"$.levels.Last().Add(1)", "$.levels.Any()", "$.levels[@.Greater(40)].Count()", `$.levels.Select("$.Add(1)").Sum()`, "$.levels.Index(0).Equal($.levels.First())", "$.scale.AnyOf($.levels)", "$.levels.First().AnyOf($.levels)"} {
+			c.sameAcross(q, []string{"any-list", "uint8-slice", "struct-field-uint8-slice", "pointer-to-uint8-slice", "uint8-array"}, docs, "round9/lists-of-bytes")
+		}
+	}
+	// exported fields whose json tag holds options only (flag 3 = `json:",omitempty"`), next to untagged fields and a map
+	line := func(flag int) *TV {
+		return tvStruct([][3]any{{"Net", flag, tvF64(0.1)}, {"Tax", flag, tvF64(0.2)}, {"Shipping", flag, tvF64(7)}, {"Discount", flag, tvStr("-0.3")}})
+	}
+	lm := tvMap("str", [][2]any{kv("Net", tvF64(0.1)), kv("Tax", tvF64(0.2)), kv("Shipping", tvF64(7)), kv("Discount", tvStr("-0.3"))})
+	docs := []*TV{tvMap("str", [][2]any{kv("line", lm)}), tvMap("str", [][2]any{kv("line", line(1))}), tvMap("str", [][2]any{kv("line", line(3))}), tvMap("str", [][2]any{kv("line", tvPtr(line(3)))})}
+	for _, q := range []string{"$.line.Sum()", "$.line.Average()", "$.line.Maximum()", "$.line.Minimum()", "$.line.Sum(1)", "$.line.Net", "$.line.Count()", `$.line.RemoveKeysByPrefix("T").Sum()`, "$.line.IsEmpty()"} {
+		c.sameAcross(q, []string{"map", "struct", "struct-with-option-only-json-tags", "pointer-to-such-a-struct"}, docs, "round9/tagged-fields")
+	}
+}
+
+// the empty object carried by a map and by a struct without fields, under the functions that take an object or a collection
+func r9EmptyObjectsAcrossCarriers(c *Ctx) {
+	mk := func(empty func() *TV) *TV {
+		return tvMap("str", [][2]any{kv("meta", empty()), kv("items", tvSlice(1, tvMap("str", [][2]any{kv("extra", empty()), kv("id", tvF64(1))}), tvMap("str", [][2]any{kv("extra", empty()), kv("id", tvF64(2))}))),
+			kv("p", tvPtr(empty()))})
+	}
+	em := func() *TV { return tvMap("str", [][2]any{}) }
+	es := func() *TV { return tvStruct([][3]any{}) }
+	for _, q := range []string{"$.meta.Any()", `$.meta.Select("$.x")`, "$.items[@.extra.Any()].Count()", `$.meta.RemoveKeysByPrefix("a")`, `$.meta.RemoveKeysByRegex(".").IsEmpty()`, "$.meta.Count()", "$.meta.IsEmpty()", "$.meta.Sum()",
+		"$.meta.IsNullOrEmpty()", "$.p.Any()", `$.p.Select("$.x").Count()`, "$.meta.AsJSON()", "$.items.extra.Count()", "$.meta.First()", "$.meta.x?.IsNull()"} {
+		c.sameAcross(q, []string{"empty-map", "struct-without-fields"}, []*TV{mk(em), mk(es)}, "round9/empty-objects-across-carriers")
 	}
 }
